@@ -14,6 +14,7 @@ CONSTANTS MaxLen, MaxNodes, MaxVnodes, NDcs, NRacks,
           KsIdx,       \* which entries of KsTable are used
           TailLen,     \* 0, 1 or 2: notification ops appended to the base history
           Variants,    \* TRUE: also the base-history variants (add order, SetPartitioner position, no KeyspaceChanged)
+          Ks2,         \* index of a second keyspace with its own replication (0: none): statements on its tables
           ExtraKs      \* the keyspaces (subset of KsIdx) for which the variants, the rebuild-while-down histories and
                        \* the overlapped-update histories are generated as well
 
@@ -77,20 +78,27 @@ Hists(n, extra, ta) ==
   (IF extra THEN {BaseHist(n, TRUE, TRUE, TRUE) \o t : t \in RebuildTails(n)} ELSE {}) \cup
   (IF extra /\ ta THEN OverlapHists(n) ELSE {})
 
-VARIABLES lay, cfg, ksi, hist, stage
-vars == <<lay, cfg, ksi, hist, stage>>
+VARIABLES lay, cfg, ksi, ks2i, hist, stage
+vars == <<lay, cfg, ksi, ks2i, hist, stage>>
 NoCfg == [pol |-> "none", localdc |-> "", localrack |-> "", ta |-> FALSE, shuffle |-> FALSE, nonlocal |-> FALSE]
-Init == lay = <<<<>>, <<>>, <<>>>> /\ cfg = NoCfg /\ ksi = 0 /\ hist = <<>> /\ stage = 0
+Init == lay = <<<<>>, <<>>, <<>>>> /\ cfg = NoCfg /\ ksi = 0 /\ ks2i = 0 /\ hist = <<>> /\ stage = 0
 PickLayout == /\ stage = 0
               /\ \E r \in EnumRings(MaxLen, MaxNodes, MaxVnodes) :
                    \E d \in EnumDcIdx(EnumMaxOf(RangeOf(r)), NDcs) :
                      \E k \in EnumRackIdx(d, Len(d), NRacks) : lay' = <<r, d, k>>
-              /\ stage' = 1 /\ UNCHANGED <<cfg, ksi, hist>>
+              /\ stage' = 1 /\ UNCHANGED <<cfg, ksi, ks2i, hist>>
 \* policies that are not token aware do not look at the keyspace: one keyspace suffices
 PickCfg == /\ stage = 1 /\ cfg' \in PolCfgs
            /\ ksi' \in (IF cfg'.ta THEN KsIdx ELSE {CHOOSE k \in KsIdx : \A m \in KsIdx : k <= m})
+           /\ ks2i' \in (IF cfg'.ta /\ Ks2 # 0 /\ ExtraKs # {} /\ ksi' = (CHOOSE k \in ExtraKs : \A m \in ExtraKs : k <= m) THEN {0, Ks2} ELSE {0})
            /\ stage' = 2 /\ UNCHANGED <<lay, hist>>
-PickHist == stage = 2 /\ hist' \in Hists(Len(lay[2]), ksi \in ExtraKs \/ ~cfg.ta, cfg.ta) /\ stage' = 3 /\ UNCHANGED <<lay, cfg, ksi>>
+\* with a second keyspace: the session's history, then the second keyspace becomes known (its replica map
+\* is computed on the settled ring)
+Ks2Hists(n) == {BaseHist(n, TRUE, TRUE, TRUE) \o <<Op("ks2", 0)>>, BaseHist(n, TRUE, TRUE, TRUE) \o <<Op("down", n), Op("ks2", 0)>>,
+                BaseHist(n, FALSE, FALSE, FALSE) \o <<Op("ks2", 0)>>}
+PickHist == /\ stage = 2
+            /\ hist' \in (IF ks2i # 0 THEN Ks2Hists(Len(lay[2])) ELSE Hists(Len(lay[2]), ksi \in ExtraKs \/ ~cfg.ta, cfg.ta))
+            /\ stage' = 3 /\ UNCHANGED <<lay, cfg, ksi, ks2i>>
 Next == PickLayout \/ PickCfg \/ PickHist
 Spec == Init /\ [][Next]_vars
 IsCase == stage = 3
@@ -101,22 +109,29 @@ World == [dc |-> [h \in 1 .. N |-> DcName(lay[2][h])], rack |-> [h \in 1 .. N |-
           ring |-> lay[1], tokens |-> [k \in 1 .. L |-> 10 * k],
           pol |-> cfg.pol, ta |-> cfg.ta, shuffle |-> cfg.shuffle, nonlocal |-> cfg.nonlocal,
           localdc |-> cfg.localdc, localrack |-> cfg.localrack,
-          strat |-> KsTable[ksi].strat, rfdc |-> KsTable[ksi].rfdc, rfn |-> KsTable[ksi].rfn]
+          strat |-> KsTable[ksi].strat, rfdc |-> KsTable[ksi].rfdc, rfn |-> KsTable[ksi].rfn,
+          strat2 |-> IF ks2i = 0 THEN "none" ELSE KsTable[ks2i].strat,
+          rfdc2 |-> IF ks2i = 0 THEN <<>> ELSE KsTable[ks2i].rfdc, rfn2 |-> IF ks2i = 0 THEN <<>> ELSE KsTable[ks2i].rfn]
 
-\* query classes: no routing key (rotation: one more pick than there are hosts), then every lookup class
-Queries == <<NoTok>> \o (IF cfg.ta THEN [k \in 1 .. 2 * L + 1 |-> 5 * k] ELSE <<>>)
+\* query classes <<token, keyspace>>: no routing key (rotation: one more pick than there are hosts), then every
+\* lookup class - for statements on the session's keyspace and, if there is one, on the second keyspace
+Keyed == [k \in 1 .. 2 * L + 1 |-> <<5 * k, 1>>] \o (IF ks2i = 0 THEN <<>> ELSE [k \in 1 .. 2 * L + 1 |-> <<5 * k, 2>>])
+Queries == <<<<NoTok, 1>>>> \o (IF cfg.ta THEN Keyed ELSE <<>>)
 NPicks(q) == IF q = NoTok THEN N + 1 ELSE 2
 RECURSIVE Before(_, _)
-Before(qs, g) == IF g = 1 THEN 0 ELSE Before(qs, g - 1) + NPicks(qs[g - 1])
+Before(qs, g) == IF g = 1 THEN 0 ELSE Before(qs, g - 1) + NPicks(qs[g - 1][1])
 \* per query class: the predicted sequences of k successive picks, and (model pass) the
 \* predicates they fail - which must be none
-GroupsOf(w, s, qs) ==
+GroupsOf(w0, s0, qs) ==
   [g \in 1 .. Len(qs) |->
-     LET q == qs[g]
+     LET q == qs[g][1]
+         pr == ForKs(w0, s0, qs[g][2])
+         w == pr[1]
+         s == pr[2]
          cx == QCtx(w, s, q)
          k == NPicks(q)
          exp == [i \in 1 .. k |-> Offer(w, s, cx, Before(qs, g) + i)]
-     IN [q |-> q, k |-> k, exp |-> exp,
+     IN [q |-> q, ks |-> qs[g][2], k |-> k, exp |-> exp,
          \* Cassandra's placement for q on the current ring: what the policy's replica map must hold
          place |-> IF cx.ta THEN Placement(w, s, q) ELSE <<>>,
          bad |-> UNION {PickFailing(w, s, cx, exp[i], FALSE) : i \in 1 .. k} \cup RotationFailing(w, s, cx, exp)]]
